@@ -35,8 +35,10 @@ class CHECK(core.Check):
                "crash points are at the start of an action and at the stamp update between passes; an asynchronous interrupt between two "
                "bytecodes of Skedder.run itself is not modelled",
                "frames: nested outlines and transitions as in framing.py, without auxiliaries, entry guards, clones; exact time only"]
-    PARTIAL = ["C03_sweep_aborts_each_once_partial: the sweep reaches every remaining tasker only when no ABORT handler raises; "
-               "inside that region the code leaves the rest un-aborted (known finding D03a, C03_counterexample_sweep_crash)",
+    PARTIAL = ["C03_sweep_aborts_each_once_partial: the sweep reaches every remaining tasker unless an ABORT handler lets a "
+               "KeyboardInterrupt / SystemExit / bare BaseException out (region sweepRaised, known finding D03b, "
+               "C03_counterexample_sweep_crash); handlers raising an Exception no longer stop it (fix D03a, "
+               "C03_sweep_survives_exceptions; C03_old_sweep_stopped_at_exception documents the old behaviour)",
                "asynchronous KeyboardInterrupt inside the loop body itself (between popleft and send) is outside the model",
                "auxiliaries / conditional auxiliaries of the aborted framers (exitAll of auxes) belong to the E-flo engine"]
     TECHNIQUE = ("Lean 4 theorems on the generic scheduler model (stop condition = status of the scheduled taskers; sweep = one ABORT per "
@@ -47,7 +49,8 @@ class CHECK(core.Check):
                   "started or running; all ways a pass can end), C03_sweep_events (one ABORT per remaining entry, in deque order, up to "
                   "a raising handler), C03_aborted_not_swept, C03_outcome (KeyboardInterrupt returns, every other exception leaves run "
                   "after the sweep), C03_loop_exception_is_from_send are full; C03_sweep_aborts_each_once_partial is partial (region "
-                  "sweepRaised) with C03_counterexample_sweep_crash for known finding D03a. Concrete framers: C03_loopEnv_faithful, "
+                  "sweepRaised = a non-Exception BaseException in the sweep) with C03_counterexample_sweep_crash for known finding D03b; "
+                  "C03_sweep_survives_exceptions is full (fix D03a), C03_old_sweep_stopped_at_exception documents the code before it. Concrete framers: C03_loopEnv_faithful, "
                   "C03_abort_exits_bottom_up, C03_stop_exits_bottom_up, C03_entered_empty_at_return are full.")
     LEVEL_NOTE = ("Trusted: Lean kernel; axioms propext, Classical.choice, Quot.sound; the hand transcription of skedding.py and of the "
                   "framer/frames subset validated by the correspondence over every crash point; the crash-injection doubles.")
@@ -158,7 +161,7 @@ class CHECK(core.Check):
     def model_post(self, case, replies):
         reply = replies[0]
         if " | " in reply:
-            self._region[core.case_key(case)] = any(e.startswith("F ") and "raise:" in e for e in reply.split(" | ")[1].split(";"))
+            self._region[core.case_key(case)] = self._base_in_sweep(reply)
         return ld.parse_reply(reply)
 
     # ------------------------------------------------------------------ oracle
@@ -219,15 +222,22 @@ class CHECK(core.Check):
         if loop_exc is None and boundary_exc is None:
             if live_after[N] and ready_after[N]:
                 return "the loop ended after pass %d although tasker(s) were still started or running" % N
-        # ---- the sweep
+        # ---- the sweep: an Exception raised by a handler does not stop it; KeyboardInterrupt / SystemExit / a bare
+        # BaseException does
+        BASE = ("KeyboardInterrupt", "SystemExit", "FakeBase")
         remaining = ready_after[N]
         swept = [e[2] for e in sweep]
-        sweep_exc = None
+        sweep_exc, sweep_base = None, None
         for ph, tick, tid, ctl, res in sweep:
             if ctl != 3:
                 return "the abort sweep sent control %d to tasker %d" % (ctl, tid)
-            if res.startswith("raise:") and sweep_exc is None:
-                sweep_exc = res[6:]
+            if sweep_base is not None:
+                return "the abort sweep went on after %s" % sweep_base
+            if res.startswith("raise:"):
+                if res[6:] in BASE:
+                    sweep_base = res[6:]
+                elif sweep_exc is None:
+                    sweep_exc = res[6:]
         if len(set(swept)) != len(swept):
             return "the abort sweep sent two aborts to one tasker"
         for t in swept:
@@ -238,7 +248,7 @@ class CHECK(core.Check):
             return "tasker(s) %s were still scheduled when the run ended but were never sent an abort" % missing
         # ---- what leaves run()
         want = "returned"
-        first = sweep_exc or (loop_exc if loop_exc != "KeyboardInterrupt" else None) or \
+        first = sweep_base or sweep_exc or (loop_exc if loop_exc != "KeyboardInterrupt" else None) or \
             (boundary_exc if boundary_exc != "KeyboardInterrupt" else None)
         if first:
             want = "raised " + first
@@ -301,9 +311,19 @@ class CHECK(core.Check):
                 break
         return "%s/%s/%s" % (kind, where, out[0].split()[0] if out else "?")
 
+    @staticmethod
+    def _base_in_sweep(reply):
+        for e in reply.split(" | ")[1].split(";"):
+            if e.startswith("F ") and "raise:" in e:
+                name = e.split("raise:")[1].split()[0]
+                if name in ("KeyboardInterrupt", "SystemExit", "FakeBase"):
+                    return True
+        return False
+
     def region(self, finding, case):
-        """D03a: `Ioflo.Sked.sweepRaised` — a send of the abort sweep raised (evaluated on the model's run)"""
-        if finding.get("id") != "D03a":
+        """D03b: `Ioflo.Sked.sweepRaised` — a send of the abort sweep raised a BaseException that is not an Exception
+        (evaluated on the model's run)"""
+        if finding.get("id") != "D03b":
             return False
         k = core.case_key(case)
         if k in self._region:
@@ -311,7 +331,7 @@ class CHECK(core.Check):
         reply = core.Driver(self.ENGINE).run([ld.request(case)])[0]
         if " | " not in reply:
             return False
-        return any(e.startswith("F ") and "raise:" in e for e in reply.split(" | ")[1].split(";"))
+        return self._base_in_sweep(reply)
 
     def shrink_candidates(self, case):
         n = len(case["framers"])
